@@ -73,6 +73,20 @@ pub struct RDebug {
     r_ldbase: ElfAddr, /* Base address the linker is loaded at.  */
 }
 
+/// The dynamic section is scanned entry by entry until `DT_NULL`; a target that never
+/// terminates it must not keep us busy forever.
+const MAX_DYNAMIC_ENTRIES: usize = 4096;
+
+/// Copies exactly `length` bytes from the target, a short read is an error (the data is
+/// reinterpreted as a fixed-size struct by the callers)
+fn copy_exact(pid: i32, src: usize, length: usize, what: &'static str) -> Result<Vec<u8>> {
+    let data = PtraceDumper::copy_from_process(pid, src, length)?;
+    if data.len() != length {
+        return Err(SectionDsoDebugError::CouldNotFind(what));
+    }
+    Ok(data)
+}
+
 pub fn write_dso_debug_stream(
     buffer: &mut Buffer,
     blamed_thread: i32,
@@ -142,10 +156,19 @@ pub fn write_dso_debug_stream(
     // DSOs loaded into the program. If this information is indeed available,
     // dump it to a MD_LINUX_DSO_DEBUG stream.
     loop {
-        let dyn_data = PtraceDumper::copy_from_process(
+        if dynamic_length / dyn_size >= MAX_DYNAMIC_ENTRIES {
+            return Err(SectionDsoDebugError::CouldNotFind(
+                "the end of the dynamic section",
+            ));
+        }
+        let entry_addr = (dyn_addr as usize).checked_add(dynamic_length).ok_or(
+            SectionDsoDebugError::CouldNotFind("the dynamic section inside the address space"),
+        )?;
+        let dyn_data = copy_exact(
             blamed_thread,
-            dyn_addr as usize + dynamic_length,
+            entry_addr,
             dyn_size,
+            "a complete dynamic section entry",
         )?;
         dynamic_length += dyn_size;
 
@@ -170,8 +193,12 @@ pub fn write_dso_debug_stream(
     // See <link.h> for a more detailed discussion of the how the dynamic
     // loader communicates with debuggers.
 
-    let debug_entry_data =
-        PtraceDumper::copy_from_process(blamed_thread, r_debug, std::mem::size_of::<RDebug>())?;
+    let debug_entry_data = copy_exact(
+        blamed_thread,
+        r_debug,
+        std::mem::size_of::<RDebug>(),
+        "a complete r_debug structure",
+    )?;
 
     // goblin::elf::Dyn doesn't have padding bytes
     let (head, body, _tail) = unsafe { debug_entry_data.align_to::<RDebug>() };
@@ -182,10 +209,11 @@ pub fn write_dso_debug_stream(
     let mut dso_vec = Vec::new();
     let mut curr_map = debug_entry.r_map;
     while curr_map != 0 {
-        let link_map_data = PtraceDumper::copy_from_process(
+        let link_map_data = copy_exact(
             blamed_thread,
             curr_map,
             std::mem::size_of::<LinkMap>(),
+            "a complete link_map structure",
         )?;
 
         // LinkMap is repr(C) and doesn't have padding bytes, so this should be safe
